@@ -54,6 +54,35 @@ fn main() {
         "C20" => drive(props::c20::C20, rest),
         "c20-digest" => props::c20::digest_main(),
         "C19" => drive(props::c19::C19::new(), rest),
+        "emit-corpus" => {
+            // emit-corpus <elf|step> <dir> <n> <seed>: starting corpus for the libFuzzer targets
+            let kind = rest.first().cloned().unwrap_or_default();
+            let dir = rest.get(1).cloned().unwrap_or_else(|| "/verif/target/fuzz-corpus".into());
+            let n: u64 = rest.get(2).and_then(|s| s.parse().ok()).unwrap_or(64);
+            let seed: u64 = rest.get(3).and_then(|s| s.parse().ok()).unwrap_or(0);
+            let _ = std::fs::create_dir_all(&dir);
+            for i in 0..n {
+                let tree = axverif::tape::new_tree(&axverif::tape::Shape::flat(200), axverif::util::mix2(seed ^ 0xC0, i));
+                let tv = tree.current();
+                let bytes: Vec<u8> = if kind == "elf" {
+                    let mut t = axverif::tape::Tape::new(&tv[0]);
+                    axverif::elfb::build(&axverif::elfb::gen_desc(&mut t)).0
+                } else {
+                    tv[0].iter().take(128).flat_map(|w| w.to_le_bytes()).collect()
+                };
+                let _ = std::fs::write(format!("{}/gen-{:04}", dir, i), bytes);
+            }
+            if kind == "elf" {
+                for f in axverif::props::c15::TESTDATA.iter() {
+                    if let Ok(b) = std::fs::read(format!("/repo/testdata/{}", f)) {
+                        if b.len() < (1 << 16) {
+                            let _ = std::fs::write(format!("{}/{}", dir, f), b);
+                        }
+                    }
+                }
+            }
+            0
+        }
         "forms" => axverif::props::nat::forms_census(arg(rest, "--per-form").and_then(|s| s.parse().ok()).unwrap_or(400)),
         other => {
             eprintln!("unknown property {}", other);
